@@ -109,6 +109,12 @@ class Scenario:
         self.F = tt.full(n)
         self.api = case['api']
         order = [self.nm[i] for i in case['order']]
+        if case['entry'] == 'preimage':
+            # documented precondition of preimage: each renamed variable
+            # is adjacent to its partner (the pair is nm[0], nm[1])
+            order.remove(self.nm[1])
+            order.insert(order.index(self.nm[0]) + 1 - case['a2'] % 2,
+                         self.nm[1])
         self.A = _ar.BDD()
         self.A.declare(*order)
         self.b = self.A._bdd
